@@ -443,8 +443,9 @@ class Ctx:
         eq = a == b
         try:
             ha, hb, n = hash(a), hash(b), len({a, b})
-        except TypeError as exc:
-            return [bool(eq), "unhashable", str(exc)]
+        except Exception as exc:
+            return [bool(eq), "unhashable", "%s: %s" % (type(exc).__name__,
+                                                         exc)]
         return [bool(eq), ha == hb, n]
 
     def e_try(self, e):
